@@ -5,8 +5,19 @@ From Icv Require Import Base.Tac Sandbox.SbModel Facts.Facts_c19.
 From Coq Require Import NArith String.
 Local Open Scope N_scope.
 
+(* conditional guards the model understands; one whose condition it does not understand is left out = no guard at all *)
+Definition sb_gcond_of (k : string) : option sb_gcond :=
+  if String.eqb k "unless-dict-member" then Some SbGcUnlessMember
+  else if String.eqb k "if-dict-member" then Some SbGcIfMember else None.
+Fixpoint sb_cond_guards_of (l : list (string * (string * string))) : list (sb_name * sb_gcond) :=
+  match l with
+  | [] => []
+  | (c, (_, k)) :: r => match sb_gcond_of k with Some g => (sb_enc c, g) :: sb_cond_guards_of r | None => sb_cond_guards_of r end
+  end.
+
 Definition sb_cur_facts : sb_facts := Eval vm_compute in
   {| sbf_exprs := map (fun p => (sb_enc (fst p), snd p)) f_sb_exprs;
+     sbf_cond_guards := sb_cond_guards_of f_sb_guard_conds;
      sbf_funcs := map (fun p => (sb_enc (fst p), snd (snd p))) f_sb_funcs;
      sbf_cbguards := map (fun p => (sb_enc (fst p), snd p)) f_sb_cbguards;
      sbf_hidden := map (fun p => (sb_enc (fst p), sb_enc (snd p))) f_sb_hidden;
@@ -19,6 +30,22 @@ Definition sb_cur_facts : sb_facts := Eval vm_compute in
      sbf_userfunc_unsafe := f_sb_userfunc_unsafe && f_sb_function_default_unsafe;
      sbf_var_import_checked := f_sb_var_import_checked;
      sbf_purity := map (fun p => (sb_enc (fst p), fst (snd p) && fst (snd (snd p)))) f_sb_purity |}.
+
+(* every class whose guard carries a further condition, understood or not *)
+Definition sb_cur_guard_conds : list sb_name := Eval vm_compute in map (fun p => sb_enc (fst p)) f_sb_guard_conds.
+(* the parser facts the model's [sb_bind_scope] / [sb_parse_dict] transcribe *)
+Definition sb_cur_bind_scope_facts : bool := Eval vm_compute in f_sb_bind_to_scope_shape && f_sb_dict_members_bound.
+
+(* the model treats the Sandboxed flag of a frame as immutable while code runs in it: the only places under lib/ that assign a
+   member named Sandboxed (or take a handle on one) are the frame set-up sites - ScriptFrame::InitializeFrame (the inherit
+   line, exactly one site in lib/base/scriptframe.cpp) and the API/CLI entry points; nothing in the interpreter (lib/config)
+   or in any native *)
+Definition sb_sandboxed_write_files : list string :=
+  ["lib/base/scriptframe.cpp"; "lib/cli/consolecommand.cpp"; "lib/remote/consolehandler.cpp"; "lib/remote/eventqueue.cpp";
+   "lib/remote/filterutility.cpp"]%string.
+Definition sb_cur_sandboxed_flag_stable : bool := Eval vm_compute in
+  forallb (fun p => existsb (String.eqb (fst p)) sb_sandboxed_write_files &&
+                    (negb (String.eqb (fst p) "lib/base/scriptframe.cpp") || Z.eqb (snd p) 1)) f_sb_sandboxed_writes.
 
 Definition sb_cur_raw_reads : list (sb_name * sb_name) := Eval vm_compute in
   map (fun p => (sb_enc (fst p), sb_enc (snd p))) f_sb_raw_reads.
@@ -56,6 +83,7 @@ Definition sb_cur_func_libs : list (sb_name * sb_name) := Eval vm_compute in
 (* the facts as they were in the pinned tree (before the fix of F-C19-a): SetConst without guard *)
 Definition sb_pinned_facts : sb_facts :=
   {| sbf_exprs := map (fun p => if fst p =? sb_n_SetConst then (fst p, false) else p) (sbf_exprs sb_cur_facts);
+     sbf_cond_guards := sbf_cond_guards sb_cur_facts;
      sbf_funcs := sbf_funcs sb_cur_facts; sbf_cbguards := sbf_cbguards sb_cur_facts;
      sbf_hidden := sbf_hidden sb_cur_facts; sbf_hidden_globals := sbf_hidden_globals sb_cur_facts;
      sbf_call_guard := sbf_call_guard sb_cur_facts; sbf_getfield_checked := sbf_getfield_checked sb_cur_facts;
